@@ -503,7 +503,74 @@ def native_replay(unit: str, obligation: str, model: dict) -> tuple[bool, str]:
             return False, "no valid raw value could be synthesised for this option"
         finally:
             env.close()
+    if unit.startswith("layer1/") and obligation.startswith("L1-") and ":" in obligation:
+        return native_layer1(tuple(unit.split("/")[1:]), obligation[3:].split(":")[0])
+    if unit.startswith("standin/"):
+        k = int(unit.rsplit("-", 1)[1])
+        env = Env()
+        try:
+            for i, (path, cmd) in enumerate(tree()):
+                if i % 16 == k:
+                    r = standin_command(env, path, cmd)
+                    if r["bad"]:
+                        return True, "; ".join(r["bad"][:3])
+        finally:
+            env.close()
+        return False, "precedence holds for every covered option of the chunk"
     return False, "no native scenario for this obligation"
+
+
+def native_layer1(path: tuple[str, ...], name: str) -> tuple[bool, str]:
+    """Environment over file for one option through the real parser: the environment value wins,
+    the file value is used without it (truthy and falsy file values alike)."""
+    from gallia.command.config import ConfigArgFieldInfo
+    cmd = dict(tree())[path]
+    info = cmd.CONFIG_TYPE.model_fields.get(name)
+    if not isinstance(info, ConfigArgFieldInfo) or info.config_section is None:
+        return False, "option without a file key"
+    env = Env()
+    try:
+        base = base_argv(cmd.CONFIG_TYPE)
+        ek, fk = f"GALLIA_{name.upper()}", (info.config_section, name)
+        if info.annotation is bool:
+            pairs = [("true", False), ("false", True)]
+        else:
+            pairs = []
+            opt = "--" + name.replace("_", "-")
+            for cand in CANDS:
+                c1, _ = env.parse(path, base + [opt, cand[0]])
+                c2, _ = env.parse(path, base + [opt, cand[1]])
+                if c1 is not None and c2 is not None and not same(getattr(c1, name),
+                                                                  getattr(c2, name)):
+                    pairs = [(cand[0], cand[1]), (cand[1], cand[0])]
+                    break
+            if info.annotation in (int, float):
+                pairs.append(("1", 0))
+        for ev, fv in pairs:
+            ce, _ = env.parse(path, base, env={ek: ev})
+            cf, _ = env.parse(path, base, file_kv={fk: fv})
+            cb, _ = env.parse(path, base, env={ek: ev}, file_kv={fk: fv})
+            c0, _ = env.parse(path, base)
+            if None in (ce, cf, cb, c0):
+                continue
+            if not same(getattr(cb, name), getattr(ce, name)):
+                return True, (f"gallia {' '.join(path)}: {ek}={ev} with file {'.'.join(fk)}={fv!r}: "
+                              f"{name} == {getattr(cb, name)!r}, the environment alone gives "
+                              f"{getattr(ce, name)!r}")
+            if same(getattr(cf, name), getattr(c0, name)) and repr(fv).lower() not in (
+                    repr(norm(getattr(c0, name))).lower(),):
+                cli, _ = env.parse(path, base + (["--" + name.replace("_", "-"), str(fv)]
+                                                 if info.annotation is not bool else []))
+                if cli is not None and not same(getattr(cli, name), getattr(c0, name)):
+                    return True, (f"gallia {' '.join(path)}: file {'.'.join(fk)}={fv!r} is "
+                                  f"ignored ({name} == {getattr(cf, name)!r}, the default)")
+                if info.annotation is bool and getattr(cf, name) is not fv:
+                    return True, (f"gallia {' '.join(path)}: file {'.'.join(fk)}="
+                                  f"{str(fv).lower()} is ignored ({name} == "
+                                  f"{getattr(cf, name)!r})")
+        return False, "environment over file holds natively for this option"
+    finally:
+        env.close()
 
 
 def native_search(unit: str, obligation: str, seed: int) -> dict | None:
